@@ -52,15 +52,16 @@ func (r *renderer) ref(tr *TypeRef) string {
 		if tr.ParenAll {
 			return "(*" + base + ")"
 		}
-		return "*" + base
+		return tr.Wrap + "*" + base
 	}
-	return base
+	return tr.Wrap + base
 }
 
 // refNoPtr renders the mention ignoring Ptr (for literals, new, ...).
 func (r *renderer) refNoPtr(tr *TypeRef) string {
 	c := *tr
 	c.Ptr = false
+	c.Wrap = ""
 	return r.ref(&c)
 }
 
@@ -280,8 +281,12 @@ func (r *renderer) funcDecl(f *FuncDecl) {
 	if f.Recv != nil {
 		head += fmt.Sprintf("(%s %s) ", r.vname(f.Recv), r.varType(f.Recv))
 	}
-	head += f.Name + "("
-	if len(f.Params) == 0 {
+	head += f.Name
+	if f.Generic {
+		head += "[K any]"
+	}
+	head += "("
+	if len(f.Params) == 0 && !f.Generic {
 		head += ")"
 	}
 	closeParams := func() string {
@@ -291,13 +296,24 @@ func (r *renderer) funcDecl(f *FuncDecl) {
 		}
 		return " ("
 	}
-	if len(f.Params) == 0 {
+	if len(f.Params) == 0 && !f.Generic {
 		f.Start = r.emit("%s%s%s%s", head, closeParams(), r.trail(&f.Node), tag(f.ID))
 	} else {
 		f.Start = r.emit("%s%s%s", head, r.trail(&f.Node), tag(f.ID))
 		r.indent++
+		if f.Generic {
+			r.emit("_ K,")
+		}
+		var variadic *Var
 		for _, p := range f.Params {
+			if p.Ref != nil && p.Ref.Wrap == "..." {
+				variadic = p // rendered last, whatever its position in the model
+				continue
+			}
 			r.emit("%s %s,%s", r.vname(p), r.varType(p), tag(p.ID))
+		}
+		if variadic != nil {
+			r.emit("%s %s,%s", r.vname(variadic), r.varType(variadic), tag(variadic.ID))
 		}
 		r.indent--
 		r.emit(")%s", closeParams())
@@ -530,9 +546,16 @@ func (r *renderer) siteText(s *Site) (string, []string) {
 		varkw = ""
 	}
 	inFunc := s.Form != "pkgvar"
+	// the written target in parentheses: (x.f) = v, (x.f)++, (x.f[0]) = v, (*r) = v
+	tgt := func(e string) string {
+		if s.ParenTarget {
+			return "(" + e + ")"
+		}
+		return e
+	}
 	switch s.Kind {
 	case "imm.assign":
-		text = fmt.Sprintf("%s.%s = %s", o, fname, fieldValue(s.Field))
+		text = fmt.Sprintf("%s = %s", tgt(o+"."+fname), fieldValue(s.Field))
 	case "imm.assignparen":
 		if s.Opnd.IsPtr() {
 			text = fmt.Sprintf("(*%s).%s = %s", o, fname, fieldValue(s.Field))
@@ -544,27 +567,29 @@ func (r *renderer) siteText(s *Site) (string, []string) {
 	case "imm.tuple2":
 		text = fmt.Sprintf("%s.%s, %s.%s = %s, %s", o, fname, o, s.Field2.Name, fieldValue(s.Field), fieldValue(s.Field2))
 	case "imm.compound":
-		text = fmt.Sprintf("%s.%s %s 2", o, fname, s.Aux)
+		text = fmt.Sprintf("%s %s 2", tgt(o+"."+fname), s.Aux)
 	case "imm.incdec":
-		text = fmt.Sprintf("%s.%s%s", o, fname, s.Aux)
+		text = fmt.Sprintf("%s%s", tgt(o+"."+fname), s.Aux)
 	case "imm.index":
 		if s.Field.Basic == "map[string]int" {
-			text = fmt.Sprintf("%s.%s[\"k\"] = 1", o, fname)
+			text = fmt.Sprintf("%s = 1", tgt(o+"."+fname+"[\"k\"]"))
+		} else if s.ParenTarget && s.ID%2 == 0 {
+			text = fmt.Sprintf("(%s.%s)[0] = 1", o, fname)
 		} else {
-			text = fmt.Sprintf("%s.%s[0] = 1", o, fname)
+			text = fmt.Sprintf("%s = 1", tgt(o+"."+fname+"[0]"))
 		}
 	case "imm.nested":
 		text = fmt.Sprintf("%s.%s.%s = %s", o, s.Aux, fname, fieldValue(s.Field))
 	case "imm.recvassign":
 		if s.Type.Kind == KInt {
-			text = fmt.Sprintf("*%s = 5", o)
+			text = fmt.Sprintf("%s = 5", tgt("*"+o))
 		} else {
-			text = fmt.Sprintf("*%s = %s{}", o, r.refNoPtr(s.Ref))
+			text = fmt.Sprintf("%s = %s{}", tgt("*"+o), r.refNoPtr(s.Ref))
 		}
 	case "ptr.assign":
 		text = fmt.Sprintf("*%s = %s{}", o, r.refNoPtr(s.Ref))
 	case "imm.recvincdec":
-		text = fmt.Sprintf("*%s%s", o, s.Aux)
+		text = fmt.Sprintf("%s%s", tgt("*"+o), s.Aux)
 	case "read.field":
 		text = fmt.Sprintf("_ = %s.%s", o, fname)
 	case "read.index":
@@ -603,7 +628,11 @@ func (r *renderer) siteText(s *Site) (string, []string) {
 			text = call
 		}
 	case "new":
-		text = lhs("new(" + r.refNoPtr(s.Ref) + ")")
+		callee := "new"
+		if s.ParenCallee {
+			callee = "(new)"
+		}
+		text = lhs(callee + "(" + r.refNoPtr(s.Ref) + ")")
 	case "conv":
 		text = lhs(r.refNoPtr(s.Ref) + "(5)")
 	case "var":
@@ -634,16 +663,31 @@ func (r *renderer) siteText(s *Site) (string, []string) {
 			after = append(after, "_ = "+s.Local)
 		}
 	case "call":
-		call := fmt.Sprintf("%s%s(%s)", r.qual(s.Fn.Pkg), s.Fn.Name, callArgs(s.Fn))
+		callee := r.qual(s.Fn.Pkg) + s.Fn.Name
+		if s.Fn.Generic && (s.Inst || s.ParenCallee) { // no inference through parentheses
+			callee += "[int]"
+		}
+		if s.ParenCallee {
+			callee = "(" + callee + ")"
+		}
+		call := fmt.Sprintf("%s(%s)", callee, callArgs(s.Fn))
 		if len(s.Fn.Results) > 0 || s.Form == "pkgvar" {
 			text = lhs(call)
 		} else {
 			text = call
 		}
 	case "funcvalue":
-		text = lhs(fmt.Sprintf("%s%s", r.qual(s.Fn.Pkg), s.Fn.Name))
+		inst := ""
+		if s.Fn.Generic {
+			inst = "[int]" // a generic function is a value only when instantiated
+		}
+		text = lhs(fmt.Sprintf("%s%s%s", r.qual(s.Fn.Pkg), s.Fn.Name, inst))
 	case "mcall":
-		call := fmt.Sprintf("%s.%s(%s)", o, s.Fn.Name, callArgs(s.Fn))
+		callee := o + "." + s.Fn.Name
+		if s.ParenCallee {
+			callee = "(" + callee + ")"
+		}
+		call := fmt.Sprintf("%s(%s)", callee, callArgs(s.Fn))
 		if len(s.Fn.Results) > 0 {
 			text = lhs(call)
 		} else {
@@ -674,6 +718,16 @@ func (r *renderer) siteText(s *Site) (string, []string) {
 		}
 	case "decoycall":
 		text = s.Aux + "()"
+	case "var.composite":
+		text = fmt.Sprintf("%s%s %s", varkw, s.Local, r.ref(s.Ref))
+		if inFunc {
+			after = append(after, "_ = "+s.Local)
+		}
+	case "lit.composite":
+		text = lhs(r.ref(s.Ref) + "{}")
+	case "decoynew":
+		// a call of a local function that shadows the builtin: nothing is allocated
+		text = "_ = new(" + o + ")"
 	case "decoyclosure":
 		r.emit("%s := func() {}", s.Aux)
 		text = s.Aux + "()"
@@ -696,8 +750,15 @@ func (r *renderer) mexprType(s *Site) string {
 
 func callArgs(f *FuncDecl) string {
 	var a []string
+	if f.Generic {
+		a = append(a, "0") // the value of the type parameter's own parameter
+	}
 	for _, p := range f.Params {
 		switch {
+		case p.Ref != nil && p.Ref.Wrap == "...":
+			// variadic: no argument
+		case p.Ref != nil && p.Ref.Wrap != "":
+			a = append(a, "nil")
 		case p.Ref != nil && p.Ref.Ptr:
 			a = append(a, "nil")
 		case p.Ref == nil && p.Basic == "":
